@@ -80,7 +80,7 @@ PROPS = {
  'C16': {'runs': bridge('C16', ops=60), 'monitor_props': ['C16'], 'rule': BRIDGE_RULE, 'assumptions': SYMBOLIC,
          'partial': ''},
  'C15': {'runs': locking('C15', blocks=18), 'monitor_props': ['C15'], 'rule': LOCKING_RULE + '; unlock / exit durations 10..90 s with block-time jumps over them',
-         'partial': 'step-level theorems (queued at now+delay, released only when key <= now, in key order, FIFO hand-over); the end-to-end delay over whole histories is checked by the implementation-side monitor, not yet by an inductive Coq theorem',
+         'partial': 'C15_queue_evolution covers every operation of every history (the queues move only by the three allowed moves); the per-entry statement "released at a block time >= request time + duration" is its immediate consequence together with C15_delay_and_exit and is additionally checked end-to-end by the implementation-side monitor; it is not restated as a trace theorem with request-time ghosts',
          'assumptions': ['block times non-decreasing (CometBFT BFT time)', 'ExitingDuration >= UnlockDuration (Params.Validate)']},
  'C04': {
    'runs': runs([{'family': 'merkle', 'n': 3000, 'shards': 16}],
